@@ -660,7 +660,11 @@ Section Oracle.
           (match_len_max p + extra_after p <= write_pos (e_lz e) - pidx e -> pending_size (e_lz e1) = pending_size (e_lz e)) /\
           sum_abs tr1 = sum_abs tr /\ pidx e1 - pidx e <= SYM_MAX p /\
           rsyms tr1 = ISym (pidx e1 - pidx e) :: rsyms tr /\
-          (forall T, Vc p e T -> istep p T (est e ps) = Some (est e1 ps1, ISym (pidx e1 - pidx e)))
+          (forall T, Vc p e T -> istep p T (est e ps) = Some (est e1 ps1, ISym (pidx e1 - pidx e))) /\
+          (forall T, Vc p e T ->
+             logical_pos e < T /\
+             irun p (parse ps (logical_pos e) (read_ahead e)) (T - (logical_pos e + read_ahead e)) (read_ahead e) =
+             Some (read_ahead e1 + (pidx e1 - pidx e), pidx e1 - pidx e, rc_full e1, ps1))
       end).
   Proof.
     intros W I Hcap Hp1. pose proof W as [W1 W2 W3 W4 W5 W6 W7 W8 W9 W10].
@@ -718,6 +722,16 @@ Section Oracle.
     split; [lia|]. split; [exact X9|]. split; [exact X10|]. split; [cbn [sum_abs]; exact E3|].
     split; [unfold SYM_MAX; destruct (Z.eq_dec k1 0); [|specialize (Hk4 ltac:(lia))]; lia|].
     split; [cbn [rsyms]; rewrite E5; do 2 f_equal; lia|].
+    assert (HVok : forall T, Vc p e T -> view_ok p e (T - (logical_pos e + read_ahead e)) /\ logical_pos e < T).
+    { intros T HV. unfold view_ok. cbv zeta. unfold Vc in HV. unfold logical_pos.
+      destruct HV as [[Hfin HT]|[HT [Hqq|Hs]]].
+      + split; [left; split; [exact Hfin|lia]|lia].
+      + exfalso. unfold quiet, pidx in Hqq. lia.
+      + unfold steady in Hs. split; [right; lia|lia]. }
+    split.
+    2:{ intros T HV. destruct (HVok T HV) as [Hv Hlt]. split; [exact Hlt|].
+        rewrite (X12 _ Hv). cbn [read_ahead rc_full]. replace (pidx e + len - pidx e) with len by lia.
+        replace (read_ahead e1 - len + len) with (read_ahead e1) by lia. reflexivity. }
     intros T HV. unfold istep, est.
     assert (Hlp : logical_pos e =? 0 = false).
     { apply Z.eqb_neq. rewrite logical_pidx. unfold pidx. lia. }
@@ -726,11 +740,7 @@ Section Oracle.
     - cbn [read_ahead]. unfold logical_pos. cbn [e_lz read_ahead g_base]. rewrite X6.
       replace (g_base e + read_pos (e_lz e1) - (read_ahead e1 - len)) with (g_base e + read_pos (e_lz e) - read_ahead e + len) by lia.
       replace (pidx e + len - pidx e) with len by lia. reflexivity.
-    - unfold view_ok. cbv zeta. unfold Vc in HV. unfold logical_pos.
-      destruct HV as [[Hfin HT]|[HT [Hqq|Hs]]].
-      + left. split; [exact Hfin|lia].
-      + exfalso. unfold quiet, pidx in Hqq. lia.
-      + right. unfold steady in Hs. lia.
+    - exact (proj1 (HVok T HV)).
   Qed.
 
   Lemma encode_init_spec p org e tr : wf_p p -> einv p org e tr -> cap e -> read_pos (e_lz e) = -1 ->
@@ -742,7 +752,8 @@ Section Oracle.
         finishing (e_lz e1) = finishing (e_lz e) /\ g_base e1 = g_base e /\ unc_size e1 = 1 /\
         (req_flush p <= write_pos (e_lz e) -> pending_size (e_lz e1) = 0) /\ ~ quiet e /\ sum_abs tr1 = sum_abs tr /\
         rsyms tr1 = ISym 1 :: rsyms tr /\
-        (forall T ps, g_base e + write_pos (e_lz e) <= T -> istep p T (est e ps) = Some (est e1 ps, ISym 1))
+        (forall T ps, g_base e + write_pos (e_lz e) <= T -> istep p T (est e ps) = Some (est e1 ps, ISym 1)) /\
+        rc_full e1 = rc_full e
       else e1 = e /\ tr1 = tr /\ quiet e).
   Proof.
     intros W I Hcap Hns. pose proof W as [W1 W2 W3 W4 W5 W6 W7 W8 W9 W10].
@@ -795,6 +806,7 @@ Section Oracle.
     split; [intros Hbg; rewrite Hbig by lia; exact Hp0|].
     split; [unfold quiet, pidx; lia|]. split; [cbn [sum_abs]; exact E3|].
     split; [cbn [rsyms]; rewrite E5; reflexivity|].
+    split; [|reflexivity].
     intros T ps HT. unfold istep, est, logical_pos. cbn [e_lz read_ahead g_base].
     replace (g_base e + read_pos (e_lz e) - read_ahead e) with 0 by lia. cbn [Z.eqb].
     destruct (Z.leb_spec 1 T); [|lia].
@@ -823,7 +835,7 @@ Section Oracle.
     - cbn [enc_loop1].
       eapply okor_bind; [apply (encode_symbol_spec p org ps e tr W I Hcap Hp1)|].
       intros [[[e1 ps1] tr1]|].
-      + intros (I1 & C1 & Q & X1 & X1' & X2 & X3 & X4 & X5 & X6 & X7 & X8 & XA & XS & XR & XI).
+      + intros (I1 & C1 & Q & X1 & X1' & X2 & X3 & X4 & X5 & X6 & X7 & X8 & XA & XS & XR & XI & XJ).
         eapply okor_weaken; [apply IH; try assumption; lia|].
         intros [[e2 ps2] tr2] (I2 & C2 & Q2 & Y1 & Y1' & Y2 & Y3 & Y4 & Y5 & Y6 & Y7 & Y8 & Y9 & YA & YI).
         split; [exact I2|]. split; [exact C2|]. split; [exact Q2|]. split; [lia|]. split; [lia|].
@@ -865,7 +877,7 @@ Section Oracle.
     destruct (Z.eqb_spec (read_pos (e_lz e)) (-1)) as [Hns|Hst]; cbn [negb].
     - eapply okor_bind; [apply (encode_init_spec p org e tr W I Hcap Hns)|].
       intros [[ok e1] tr1]. destruct ok; cbn [negb].
-      + intros (I1 & C1 & P1 & R1 & X2 & X3 & X4 & X5 & X6 & X7 & NQ & XA & XR & XI).
+      + intros (I1 & C1 & P1 & R1 & X2 & X3 & X4 & X5 & X6 & X7 & NQ & XA & XR & XI & XF).
         assert (Hp0 : pidx e = 0) by (unfold pidx; lia).
         assert (Hunc : unc_size e = 0).
         { assert (g_base e = 0) by (destruct Hh; lia). rewrite logical_pidx in Hchunk. lia. }
@@ -1379,6 +1391,79 @@ Section Oracle.
   Definition UNC_BOUND (p : lzp) : Z := LZMA2_UNCOMPRESSED_LIMIT + SYM_MAX p.
   Definition loop2_cond (e : encd) : bool := (unc_size e <=? LZMA2_UNCOMPRESSED_LIMIT) && negb (rc_full e).
 
+  (* The data-only machine of the LZMA2 writer (no flush, no chunk_size): state = (logical position,
+     read_ahead, oracle state, uncompressed_size of the chunk, range-coder bit).  A step is the
+     forced first literal, a consultation, or write_chunk — the latter as soon as the chunk is full,
+     and once more when all data is coded. *)
+  Definition ist2 : Type := (Z * Z * PS * Z * bool)%type.
+  Definition ichunk (st : ist2) : option (ist2 * iev) :=
+    let '(P, ra, ps, unc, full) := st in
+    let '(c, ps1) := chunkc ps unc in
+    if (c <? 1) || (COMPRESSED_SIZE_MAX <? c + 2) || negb (Bool.eqb full (LZMA2_COMPRESSED_LIMIT <? c)) then None else
+    if c + 2 <? unc then Some ((P, ra, ps1, 0, false), ILzma unc c)
+    else Some ((P + (ra + 1), -1, ps1, 0, false), IUnc (unc + (ra + 1))).
+  Definition istep2 (p : lzp) (T : Z) (st : ist2) : option (ist2 * iev) :=
+    let '(P, ra, ps, unc, full) := st in
+    if P =? 0 then (if 1 <=? T then Some ((1, -1, ps, unc + 1, full), ISym 1) else None)
+    else if (unc <=? LZMA2_UNCOMPRESSED_LIMIT) && negb full then
+      if P <? T then
+        match irun p (parse ps P ra) (T - (P + ra)) ra with
+        | Some (ra1, len, full1, ps1) => Some ((P + len, ra1 - len, ps1, unc + len, full1), ISym len)
+        | None => None
+        end
+      else if 1 <=? unc then ichunk st else None
+    else ichunk st.
+  Fixpoint isteps2 (p : lzp) (T : Z) (n : nat) (st : ist2) (acc : list iev) : option (ist2 * list iev) :=
+    match n with
+    | O => Some (st, acc)
+    | S k => match istep2 p T st with
+             | Some (st1, ev) => isteps2 p T k st1 (ev :: acc)
+             | None => None
+             end
+    end.
+  Definition est2 (e : encd) (ps : PS) : ist2 := (logical_pos e, read_ahead e, ps, unc_size e, rc_full e).
+
+  Lemma isteps2_app p T n1 : forall st acc st1 acc1 n2 st2 acc2,
+    isteps2 p T n1 st acc = Some (st1, acc1) -> isteps2 p T n2 st1 acc1 = Some (st2, acc2) ->
+    isteps2 p T (n1 + n2) st acc = Some (st2, acc2).
+  Proof.
+    induction n1 as [|n IH]; intros st acc st1 acc1 n2 st2 acc2 H1 H2.
+    - cbn in H1. injection H1 as -> ->. exact H2.
+    - cbn [isteps2 Nat.add] in *. destruct (istep2 p T st) as [[st' ev]|]; [|discriminate].
+      eapply IH; eassumption.
+  Qed.
+
+  Lemma isteps2_split p T : forall n1 n2 st acc r,
+    isteps2 p T (n1 + n2) st acc = Some r ->
+    exists mid macc, isteps2 p T n1 st acc = Some (mid, macc) /\ isteps2 p T n2 mid macc = Some r.
+  Proof.
+    induction n1 as [|n IH]; intros n2 st acc r H.
+    - exists st, acc. split; [reflexivity|exact H].
+    - cbn [isteps2 Nat.add] in *. destruct (istep2 p T st) as [[st' ev]|]; [|discriminate].
+      apply IH. exact H.
+  Qed.
+
+  (* two runs from the same state that both end in a state without successor are the same run *)
+  Lemma isteps2_deterministic p T st : forall n n' acc f acc1 f' acc1',
+    isteps2 p T n st acc = Some (f, acc1) -> isteps2 p T n' st acc = Some (f', acc1') ->
+    istep2 p T f = None -> istep2 p T f' = None -> f = f' /\ acc1 = acc1'.
+  Proof.
+    assert (Hle : forall n n' acc f acc1 f' acc1',
+      isteps2 p T n st acc = Some (f, acc1) -> isteps2 p T n' st acc = Some (f', acc1') ->
+      istep2 p T f = None -> (n <= n')%nat -> f = f' /\ acc1 = acc1').
+    { intros n n' acc f acc1 f' acc1' H H' Hf Hle.
+      replace n' with (n + (n' - n))%nat in H' by lia.
+      destruct (isteps2_split _ _ _ _ _ _ _ H') as (mid & macc & M1 & M2).
+      rewrite H in M1. injection M1 as <- <-.
+      destruct (n' - n)%nat as [|m].
+      - cbn in M2. injection M2 as <- <-. split; reflexivity.
+      - cbn [isteps2] in M2. rewrite Hf in M2. discriminate. }
+    intros n n' acc f acc1 f' acc1' H H' Hf Hf'.
+    destruct (Nat.le_ge_cases n n') as [L|L].
+    - eapply Hle; eassumption.
+    - destruct (Hle _ _ _ _ _ _ _ H' H Hf' L) as [A B]. split; congruence.
+  Qed.
+
   Lemma cap_of_bound p org e tr : wf_p p -> einv p org e tr -> unc_size e <= UNC_BOUND p -> cap e.
   Proof.
     intros W I Hb. pose proof W as [W1 W2 W3 W4 W5 W6 W7 W8 W9 W10].
@@ -1402,33 +1487,53 @@ Section Oracle.
        pending_size (e_lz e1) = pending_size (e_lz e)) /\
       (quiet e -> e1 = e /\ ps1 = ps /\ tr1 = tr) /\
       (~ quiet e -> loop2_cond e = true -> pidx e < pidx e1) /\
-      sum_abs tr1 = sum_abs tr).
+      sum_abs tr1 = sum_abs tr /\
+      (forall T acc, Vc p e T -> exists n L, isteps2 p T n (est2 e ps) acc = Some (est2 e1 ps1, L ++ acc) /\
+                                             rsyms tr1 = L ++ rsyms tr)).
   Proof.
     intros W. induction fuel as [|f IH]; intros ps e tr I Hub Hp1 Hfuel.
     - exfalso. pose proof (ei_lz _ _ _ _ I) as [[? ?] ? ? ? ?]. pose proof (ei_ra _ _ _ _ I). unfold pidx in *. lia.
     - cbn [enc_loop2]. fold (loop2_cond e).
       destruct (loop2_cond e) eqn:Ec.
       2:{ cbn [okor]. split; [exact I|]. split; [exact Hub|]. split; [exact Ec|].
-          repeat split; try lia; try reflexivity; try (intros _ X; discriminate). }
+          repeat split; try lia; try reflexivity; try (intros _ X; discriminate).
+          intros T acc _. exists O, []. split; reflexivity. }
       assert (Hcap : cap e) by (apply (cap_of_bound p org e tr W I Hub)).
       eapply okor_bind; [apply (encode_symbol_spec p org ps e tr W I Hcap Hp1)|].
       intros [[[e1 ps1] tr1]|].
-      + intros (I1 & C1 & Q & X1 & X1' & X2 & X3 & X4 & X5 & X6 & X7 & X8 & XA & XS).
+      + intros (I1 & C1 & Q & X1 & X1' & X2 & X3 & X4 & X5 & X6 & X7 & X8 & XA & XS & XR & XI & XJ).
         assert (Hub1 : unc_size e1 <= UNC_BOUND p).
         { unfold loop2_cond in Ec. apply andb_true_iff in Ec as [Ec1 _]. apply Z.leb_le in Ec1.
           unfold UNC_BOUND. lia. }
         eapply okor_weaken; [apply (IH ps1 e1 tr1 I1 Hub1); lia|].
-        intros [[[b e2] ps2] tr2] (I2 & U2 & B2 & Y1 & Y1' & Y2 & Y3 & Y4 & Y5 & Y6 & Y7 & Y8 & Y9 & Y10 & YA).
+        intros [[[b e2] ps2] tr2] (I2 & U2 & B2 & Y1 & Y1' & Y2 & Y3 & Y4 & Y5 & Y6 & Y7 & Y8 & Y9 & Y10 & YA & YI).
         split; [exact I2|]. split; [exact U2|]. split; [exact B2|]. split; [lia|]. split; [lia|].
         split; [congruence|]. split; [congruence|]. split; [congruence|]. split; [congruence|].
         split; [lia|]. split; [lia|].
         split.
         { intros Hnf Hst. rewrite Y8 by (rewrite ?X2, ?X3, ?X4; assumption).
           apply X8. pose proof (wf_ka p W). unfold quiet in Q. lia. }
-        split; [intros Q'; contradiction|]. split; [intros _ _; lia|congruence].
+        split; [intros Q'; contradiction|]. split; [intros _ _; lia|]. split; [congruence|].
+        intros T acc HV.
+        assert (HV1 : Vc p e1 T).
+        { unfold Vc, steady in *. rewrite X2, X3, X4, X5.
+          destruct HV as [HV|[HT [Hq|Hs]]]; [left; exact HV|contradiction|right; split; [exact HT|right; exact Hs]]. }
+        destruct (YI T (ISym (pidx e1 - pidx e) :: acc) HV1) as (n & L & En & Er).
+        exists (S n), (L ++ [ISym (pidx e1 - pidx e)]). cbn [isteps2].
+        destruct (XJ T HV) as [Hlt Hir].
+        assert (Hst : istep2 p T (est2 e ps) = Some (est2 e1 ps1, ISym (pidx e1 - pidx e))).
+        { unfold istep2, est2.
+          assert (Hlp : logical_pos e =? 0 = false) by (apply Z.eqb_neq; rewrite logical_pidx; pose proof (ei_base _ _ _ _ I) as [? _]; lia).
+          rewrite Hlp. unfold loop2_cond in Ec. rewrite Ec.
+          destruct (Z.ltb_spec (logical_pos e) T); [|lia].
+          rewrite Hir. rewrite !logical_pidx, X5, X6.
+          replace (read_ahead e1 + (pidx e1 - pidx e) - (pidx e1 - pidx e)) with (read_ahead e1) by lia.
+          replace (g_base e + pidx e + (pidx e1 - pidx e)) with (g_base e + pidx e1) by lia. reflexivity. }
+        rewrite Hst. rewrite <- app_assoc. cbn [app]. split; [exact En|]. rewrite Er, XR, <- app_assoc. reflexivity.
       + cbn [okor]. intros Q.
         split; [exact I|]. split; [exact Hub|]. split; [split; [exact Q|exact Ec]|].
         repeat split; try lia; try reflexivity; try (intros NQ; contradiction).
+        intros T acc _. exists O, []. split; reflexivity.
   Qed.
 
   Lemma encode_for_lzma2_spec p org ps e tr : wf_p p -> einv p org e tr -> unc_size e <= UNC_BOUND p ->
@@ -1444,7 +1549,9 @@ Section Oracle.
       (~ quiet e -> loop2_cond e = true -> pidx e < pidx e1) /\
       (loop2_cond e = true -> b = false -> loop2_cond e1 = true) /\
       (finishing (e_lz e) = false -> read_limit (e_lz e) <= write_pos (e_lz e) - keep_after p ->
-       pending_size (e_lz e) = 0 -> pending_size (e_lz e1) = 0) /\ sum_abs tr1 = sum_abs tr).
+       pending_size (e_lz e) = 0 -> pending_size (e_lz e1) = 0) /\ sum_abs tr1 = sum_abs tr /\
+      (forall T acc, Vc p e T -> exists n L, isteps2 p T n (est2 e ps) acc = Some (est2 e1 ps1, L ++ acc) /\
+                                             rsyms tr1 = L ++ rsyms tr)).
   Proof.
     intros W I Hub. pose proof W as [W1 W2 W3 W4 W5 W6 W7 W8 W9 W10].
     pose proof I as [[[Ha Hb] Hc [Hd He] [Hf Hg] Hpb] [Hr1 Hr2] Hmb [Hb1 Hb2] Hh Hdict Hpx Hu HU Hfill Hsym Hchunk Horg].
@@ -1453,16 +1560,16 @@ Section Oracle.
     - assert (Hcap : cap e) by (apply (cap_of_bound p org e tr W I Hub)).
       eapply okor_bind; [apply (encode_init_spec p org e tr W I Hcap Hns)|].
       intros [[ok e1] tr1]. destruct ok; cbn [negb].
-      + intros (I1 & C1 & P1 & R1 & X2 & X3 & X4 & X5 & X6 & X7 & NQ & XA & XR & XI).
+      + intros (I1 & C1 & P1 & R1 & X2 & X3 & X4 & X5 & X6 & X7 & NQ & XA & XR & XI & XF).
         assert (Hp0 : pidx e = 0) by (unfold pidx; lia).
-        assert (Hunc : unc_size e = 0).
-        { assert (g_base e = 0) by (destruct Hh; lia). rewrite logical_pidx in Hchunk. lia. }
+        assert (Hbase0 : g_base e = 0) by (destruct Hh; lia).
+        assert (Hunc : unc_size e = 0) by (rewrite logical_pidx in Hchunk; lia).
         assert (Hub1 : unc_size e1 <= UNC_BOUND p).
         { rewrite X6. unfold UNC_BOUND, SYM_MAX, LZMA2_UNCOMPRESSED_LIMIT. lia. }
         eapply okor_weaken.
         { apply (enc_loop2_spec p org W _ ps e1 tr1 I1 Hub1); try lia.
           unfold sym_fuel. pose proof (ei_lz _ _ _ _ I1) as [[? ?] ? ? ? ?]. lia. }
-        intros [[[b e2] ps2] tr2] (I2 & U2 & B2 & Y1 & Y1' & Y2 & Y3 & Y4 & Y5 & Y6 & Y7 & Y8 & Y9 & Y10 & YA).
+        intros [[[b e2] ps2] tr2] (I2 & U2 & B2 & Y1 & Y1' & Y2 & Y3 & Y4 & Y5 & Y6 & Y7 & Y8 & Y9 & Y10 & YA & YI).
         split; [exact I2|]. split; [exact U2|].
         split; [destruct b; [exact B2|exact (proj1 B2)]|].
         split; [lia|]. split; [lia|].
@@ -1471,25 +1578,38 @@ Section Oracle.
         split; [intros Q; contradiction|].
         split; [intros _ _; lia|].
         split; [intros _ Eb; subst b; exact (proj2 B2)|].
-        split; [|congruence].
-        intros Hnf Hs Hp. rewrite Y8; [apply X7; unfold quiet, pidx in NQ; lia|congruence|congruence].
+        split; [|split; [congruence|]].
+        { intros Hnf Hs Hp. rewrite Y8; [apply X7; unfold quiet, pidx in NQ; lia|congruence|congruence]. }
+        intros T acc HV.
+        assert (HT : g_base e + write_pos (e_lz e) <= T) by (unfold Vc in HV; destruct HV as [[_ ?]|[? _]]; lia).
+        assert (HV1 : Vc p e1 T).
+        { unfold Vc, steady in *. rewrite X2, X3, X4, X5.
+          destruct HV as [HV|[HT' [Hq|Hs]]]; [left; exact HV|contradiction|right; split; [exact HT'|right; exact Hs]]. }
+        destruct (YI T (ISym 1 :: acc) HV1) as (n & L & En & Er).
+        exists (S n), (L ++ [ISym 1]). cbn [isteps2].
+        assert (Hst : istep2 p T (est2 e ps) = Some (est2 e1 ps, ISym 1)).
+        { unfold istep2, est2. rewrite !logical_pidx, Hp0, Hbase0, X5, Hbase0, P1. cbn [Z.add Z.eqb].
+          pose proof (ei_lz _ _ _ _ I1) as [[? ?] ? ? ? ?]. pose proof (ei_ra _ _ _ _ I1). unfold pidx in P1.
+          destruct (Z.leb_spec 1 T); [|lia].
+          replace (read_ahead e1) with (-1) by lia. rewrite Hunc, X6, XF. reflexivity. }
+        rewrite Hst. rewrite <- app_assoc. cbn [app]. split; [exact En|]. rewrite Er, XR, <- app_assoc. reflexivity.
       + intros (E1 & E2 & Q). subst e1 tr1. cbn [okor].
         split; [exact I|]. split; [exact Hub|]. split; [exact Q|].
         repeat split; try lia; auto; try (intros NQ; contradiction).
+        intros T acc _. exists O, []. split; reflexivity.
     - assert (Hp1 : 1 <= pidx e) by (destruct Hpx; [lia|assumption]).
       eapply okor_weaken.
       { apply (enc_loop2_spec p org W _ ps e tr I Hub Hp1). unfold sym_fuel, pidx in *. lia. }
-      intros [[[b e2] ps2] tr2] (I2 & U2 & B2 & Y1 & Y1' & Y2 & Y3 & Y4 & Y5 & Y6 & Y7 & Y8 & Y9 & Y10 & YA).
+      intros [[[b e2] ps2] tr2] (I2 & U2 & B2 & Y1 & Y1' & Y2 & Y3 & Y4 & Y5 & Y6 & Y7 & Y8 & Y9 & Y10 & YA & YI).
       split; [exact I2|]. split; [exact U2|].
       split; [destruct b; [exact B2|exact (proj1 B2)]|].
       split; [lia|]. split; [lia|].
       split; [exact Y2|]. split; [exact Y3|]. split; [exact Y4|]. split; [exact Y5|]. split; [exact Y6|].
       split; [exact Y9|]. split; [exact Y10|].
       split; [intros _ Eb; subst b; exact (proj2 B2)|].
-      split; [|exact YA].
+      split; [|split; [exact YA|exact YI]].
       intros Hnf Hs Hp. rewrite Y8; assumption.
   Qed.
-
 
   (* write_uncompressed's copies: every slice read from the window lies inside it *)
   Lemma unc_copies_spec p d : wf_p p -> lzinv p d -> forall fuel u tr,
